@@ -1157,6 +1157,10 @@ def rule_box(ctx):
         fnshort = site_short(ctx, site)
         loc = ctx.site_loc(site)
         for c, a, plain, el in occ:
+            # the production that owns the choice (where the possibly-boxed type is placed), not where `Box` is spelled
+            if el is not None and el.get('site') is not None:
+                fnshort = site_short(ctx, el['site'])
+                loc = ctx.site_loc(el['site'])
             inst = '%s/box' % fnshort
             if c is None:
                 # Box token that is not the head of a choice alternative => unconditional boxing
